@@ -5,6 +5,7 @@
 # given checks (default: <PROP>) against a scratch copy of /repo with the patch applied
 # (selftest/mutant.sh) and files everything under /verif/seeded/<PROP>-<k>/.
 P=$1; K=$2; shift 2; CHECKS=${@:-$P}
+if [ "$OUTK" = "auto" ]; then n=1; while [ -d /verif/seeded/$P-$n ]; do n=$((n+1)); done; export OUTK=$n; fi
 WT=${WTPREFIX:-/tmp/wt_}$P; D=$WT/_deliver; OUT=/verif/seeded/$P-${OUTK:-$K}
 [ -f $D/patch$K.diff ] || { echo "no patch $D/patch$K.diff"; exit 2; }
 cd $WT || exit 2
